@@ -1597,7 +1597,10 @@ class DB:
         from .inline import inlinable
         gone = set(g for _, g in self.inlined)
         # helpers first, closures afterwards (a closure spliced into a helper that itself disappears has one owner less)
-        for gid in sorted(gone, key=lambda x: (1 if (originals.get(x) is not None and originals[x].kind == "closure") else 0, x)):
+        order = sorted(gone, key=lambda x: (1 if (originals.get(x) is not None and originals[x].kind == "closure") else 0, x))
+        for gid in order + order:        # (second pass: a helper whose last caller was a helper removed in the first pass)
+            if gid not in self.fns:
+                continue
             g = originals.get(gid)
             if g is None:
                 continue
@@ -1615,7 +1618,7 @@ class DB:
                 if g.raw.get("is_async") and any(q == gid for _o, q in self.ctor_inlined):
                     # only the creation of the helper's future was spliced in: its body lives on as an async block of the
                     # (single) body that creates it
-                    owners = set(o for o, q in self.inlined if q == gid)
+                    owners = set(o for o, q in self.inlined if q == gid and o in self.fns)
                     if len(owners) != 1:
                         continue
                     for x in self.fns.values():
@@ -1630,7 +1633,7 @@ class DB:
                     cors = [x for x in self.fns.values() if getattr(x, "parent", None) == gid]
                     kids = [y for x in cors for y in self.fns.values() if getattr(y, "parent", None) == x.id]
                     if kids:
-                        owners = set(o for o, q in self.inlined if q == gid)
+                        owners = set(o for o, q in self.inlined if q == gid and o in self.fns)
                         if len(owners) != 1:
                             continue
                         for y in kids:
